@@ -1,3 +1,5 @@
+//go:build c20
+
 package verifharness
 
 // C20 — reward vesting. Drives the real x/rvesting BeginBlocker inside a real app with parameters
